@@ -80,7 +80,7 @@ func ruleDiskWriterFlags(c *Ctx, rule string) {
 // ruleStreamCopy: error discipline of one copy function.
 func ruleStreamCopy(c *Ctx, rule string, f *ssa.Function) {
 	// the reader/writer/io.Copy sequence may live in a private helper
-	hasCopy := func(g *ssa.Function) bool { return len(CallsTo(g, "io.Copy")) > 0 }
+	hasCopy := func(g *ssa.Function) bool { return len(CallsTo(g, "io.Copy"))+len(CallsTo(g, "io.CopyBuffer")) > 0 }
 	orig := f
 	if !hasCopy(f) {
 		for _, g := range reachableSamePkg(f, 3) {
@@ -101,7 +101,7 @@ func ruleStreamCopy(c *Ctx, rule string, f *ssa.Function) {
 			continue
 		}
 		switch {
-		case ci.Static != nil && qualName(ci.Static) == "io.Copy":
+		case ci.Static != nil && (qualName(ci.Static) == "io.Copy" || qualName(ci.Static) == "io.CopyBuffer"):
 			copyCall = call
 		case ci.Method != nil && ci.Method.Name() == "Reader":
 			readerOpen = call
@@ -253,6 +253,14 @@ func rulesC04(c *Ctx) {
 
 	// ---- R2 disk writer truncates ---------------------------------------------------------
 	ruleDiskWriterFlags(c, "R2")
+
+	// ---- R8 the disk writer opens exactly the addressed path (same rule as C02.R7) --------------
+	// (a writer that goes through "<path>.tmp" and renames replaces the content of a real sibling of that name)
+	if dT := c.P.Named(diskfsPkg, "Filespace"); dT != nil {
+		if fi := c.P.Iface("filesystem", "Filespace"); fi != nil {
+			c.Floor("R8", ruleHostPathExact(c, "R8", c.P.MethodsOf(dT, fi), map[string]bool{"Writer": true, "WriteFile": true}), 1)
+		}
+	}
 
 	// ---- R3 stream copy -----------------------------------------------------------------------
 	for _, f := range []*ssa.Function{c.P.Func(helperPkg, "", "StreamCopy"), c.P.Func(helperPkg, "Copier", "copyFile")} {
